@@ -54,6 +54,10 @@ def gen(rng, tier):
             case['late_outs'] = rng.randrange(nouts)
         if kind == 'FIBDemux' and rng.random() < 0.3:
             case['late_ends'] = True
+        if rng.random() < 1 / 40:
+            # a long life: the same mix of routed, unknown and end-device flows, well over a thousand packets
+            case['flows'] = (case['flows'] * (1600 // len(case['flows']) + 1))[:rng.choice([1300, 1600])]
+            case['long_life'] = True
         if kind in ('FIBDemux', 'FairSwitch') and rng.random() < 0.35:
             # the table is replaced while traffic flows: routes appear, move and disappear
             case['fib2'] = [rng.randrange(len(flows) + 1), [[f, rng.randint(0, max(0, nouts))] for f in range(8) if rng.random() < 0.6]]
@@ -159,7 +163,7 @@ def run_demux(w, case):
             entry.put(p)
             yield env.timeout(0.25)
     env.process(feeder())
-    w.run(max_steps=20000)
+    w.run(max_steps=200000 if case.get("long_life") else 20000)
     for p, f, fib in sent:
         where = [r.name for r in outs + ([dflt] if dflt else []) + list(ends.values()) if any(q is p for q in r.got)]
         count = sum(sum(1 for q in r.got if q is p) for r in outs + ([dflt] if dflt else []) + list(ends.values()))
